@@ -12,7 +12,7 @@ UNIT = Unit(
     rules=[("strip", "anf::"), ("strip", "goast::")],
     describe="go::compile::compile_cexpr_effect: a complex expression in effect position (value discarded) still emits exactly one Go statement "
              "when it is a call, a dyn-trait call or `go`; control-flow forms never reach its panic!; compile_go: `go e` is ONE go statement "
-             "calling the closure's apply function with the closure as its only argument",
+             "calling the closure's apply function with the closure as its only argument, or — for a plain function value — the function itself without arguments",
     trusted=["the precondition `expr is not EMatch/EIf/EWhile` (the panic! arm) is NOT checked at the single call site in compile_aexpr_effect, which is outside the unit", "compile_cexpr is external (uninterpreted result); only the fact that a statement carrying its result is emitted is proved",
              "PARTIAL: compile_go's `.expect(..)` (a closure type without an apply function: compiler-internal invariant) is not claimed unreachable (assume(false), listed)"],
     items=goast_types + [
@@ -31,10 +31,13 @@ UNIT = Unit(
         Adt(file=G + "compile.rs", kw="struct", name="ClosureApplyFn", rules=["attrs", "pubfields", ("strip", "tast::")]),
         Fn(file=G + "compile.rs", name="compile_go", ret="r",
            obligation="`go e` becomes exactly one go statement calling the closure's apply function with the closure as its only argument",
+           pre_rewrites=[(re.compile(r"if let tast::Ty::TFunc \{ ret_ty, \.\. \} = &closure_ty \{"), "if let TyShape::Func { ret: ret_ty } = ty_shape(&closure_ty) {", "*"),
+                         ("ty: (**ret_ty).clone(),", "ty: ret_ty,", "*"), ("args: vec![],", "args: vec_no_imm(),", "*")],
            rewrites=[(re.compile(r"let apply = find_closure_apply_fn\(goenv, &closure_ty\)\s*\.expect\(\"[^\"]*\"\);"),
                       "let apply = match find_closure_apply_fn(goenv, &closure_ty) { Some(a) => a, None => { proof { assume(false); } unreached() } };", 1),
                      (re.compile(r"\.clone\(\)"), ".vclone()", "*")],
            contract="ensures is_go_of(goenv, *closure, r),",
-           ghost=[("let call_expr = compile_cexpr(goenv, &apply_call);", "line-after", "proof { assert(call_expr == go_call_of(goenv, &apply_call)); }")]),
+           ghost=[("let call_expr = compile_cexpr(goenv, &apply_call);", "line-after", "proof { assert(call_expr == go_call_of(goenv, &apply_call)); }"),
+                  ("?return Stmt::Go {", "line-before", "proof { assert(go_call_of(goenv, &direct_call) == go_call_of(goenv, &direct_call)); }")]),
     ],
 )
